@@ -232,6 +232,23 @@ def family_inc(tier='quick'):
         'nested': [[('Z', 'Q0')], [('P0', 'Z')], [('Q0', 'Z'), ('Q1', 'Z')], [('A', 'Q1')]],
         'three-opts': [[('P0', 'Q0'), ('P1', 'Q1'), ('P2', 'Q2')], [('P0', 'Q0'), ('P0', 'Q1'), ('P0', 'Q2')]],
     }
+    # an option incompatible with a node that every option of another active choice derives through a shared node
+    # (both alphabetical orders of the two node names; both orders of stating the constraint)
+    for tgt, src in (('A_tgt', 'Z_src'), ('Z_tgt', 'A_src')):
+        for flip in (False, True):
+            nodes = ['X', 'A', 'B', 'P0', 'P1', 'M', tgt, src, 'Q1']
+            edges = [('X', 'A'), ('X', 'B'), ('P0', 'M'), ('P1', 'M'), ('M', tgt)]
+            ch = [('C1', 'A', ['P0', 'P1']), ('C2', 'B', [src, 'Q1'])]
+            pair = (tgt, src) if flip else (src, tgt)
+            out.append(Desc(nodes, edges, ['X'], choices=ch, incompat=[pair],
+                            label=f'inc-shared-derived-{tgt[0]}{src[0]}-{int(flip)}'))
+    # incompatibility with a start node / between two permanent nodes (infeasible space) / option vs permanent
+    out.append(Desc(['A', 'B', 'P0', 'P1'], [('A', 'B')], ['A'], choices=[('C1', 'A', ['P0', 'P1'])],
+                    incompat=[('A', 'P0')], label='inc-start-vs-option'))
+    out.append(Desc(['A', 'B', 'P0', 'P1'], [('A', 'B')], ['A'], choices=[('C1', 'A', ['P0', 'P1'])],
+                    incompat=[('A', 'B')], label='inc-permanent-pair'))
+    out.append(Desc(['A', 'B', 'P0', 'P1', 'D'], [('A', 'B'), ('P1', 'D')], ['A'], choices=[('C1', 'A', ['P0', 'P1'])],
+                    incompat=[('B', 'D')], label='inc-derived-vs-permanent'))
     for name, nodes, edges, start, choices in base:
         out.append(Desc(nodes, edges, start, choices=choices, label=f'inc-{name}-none'))
         for i, ps in enumerate(pairs[name]):
